@@ -115,8 +115,9 @@ def check_props_file(pid):
     examples = re.findall(r"^\s*Example\s+(\w+)", src, re.M)
     printed = re.findall(r"^\s*Print Assumptions\s+(\w+)", src, re.M)
     # compile to a scratch .vo so that the output is captured on every run
-    os.makedirs(os.path.join(BUILD, "props"), exist_ok=True)
-    outvo = os.path.join(BUILD, "props", pid + ".vo")
+    pdir = os.path.join(BUILD, "props" + ("_" + os.environ["VERIF_RUN_TAG"] if os.environ.get("VERIF_RUN_TAG") else ""))
+    os.makedirs(pdir, exist_ok=True)
+    outvo = os.path.join(pdir, pid + ".vo")
     rc, out, err, wall = sh(["coqc", "-Q", ".", "Labella", "-o", outvo, vfile], 900, cwd=COQ)
     closed = out.count("Closed under the global context")
     axioms = []
@@ -271,7 +272,9 @@ def load_corpus(pid):
 def run(prop, tier, seed, replay=None):
     t0 = time.time()
     pid = prop.ID
-    workdir = os.path.join(BUILD, "run", pid)
+    # VERIF_RUN_TAG lets several runs of the same check work side by side (mutation campaigns)
+    tag = os.environ.get("VERIF_RUN_TAG", "")
+    workdir = os.path.join(BUILD, "run", pid + ("_" + tag if tag else ""))
     os.makedirs(workdir, exist_ok=True)
     rng = random.Random("%s-%d" % (pid, seed))
     violations = []      # (message, replay payload)
